@@ -88,11 +88,23 @@ func (srv *simServer) checkSlots(where string) {
 // onStep runs on the controller after every step (and once at the end).
 func (srv *simServer) onStep() {
 	s := srv.s
+	srv.probeBackpressure()
 	if s.mu.Held() {
 		return
 	}
 	srv.checkSlots("step")
 	srv.trackSeqs()
+}
+
+// probeBackpressure: a slow reader has let the response channel of a sequence fill up
+// (the run loop then blocks in flushPending while holding Server.mu).
+func (srv *simServer) probeBackpressure() {
+	for _, sq := range srv.s.seqs {
+		if sq != nil && len(sq.responses) == cap(sq.responses) {
+			verifsim.Probe("response_channel_full")
+			return
+		}
+	}
 }
 
 // trackSeqs notices sequences that appeared in / disappeared from Server.seqs.
@@ -436,6 +448,9 @@ func (w *runWorld) afterRequest(srv *simServer, r *reqState) {
 		return
 	}
 	if !r.admitted {
+		if r.cancelled {
+			verifsim.Probe("cancel_before_admission")
+		}
 		return
 	}
 	w.checkStream(srv, r)
